@@ -104,6 +104,19 @@ typedef enum {
   SX127x_HEADER_MODE_IMPLICIT = 0b00000001
 } sx127x_header_mode_t;
 
+#ifndef CONFIG_SX127X_DISABLE_SPI_CACHE
+// remember the bytes just transferred register by register. never-cache registers inside the range stay never-cache
+void sx127x_shadow_store(int reg, const uint8_t *data, size_t data_length, shadow_spi_device_t *spi_device) {
+  for (size_t i = 0; i < data_length; i++) {
+    if (spi_device->shadow_registers_sync[reg + i] == SHADOW_IGNORE) {
+      continue;
+    }
+    spi_device->shadow_registers[reg + i] = data[i];
+    spi_device->shadow_registers_sync[reg + i] = SHADOW_CACHED;
+  }
+}
+#endif
+
 int sx127x_shadow_spi_read_registers(int reg, shadow_spi_device_t *spi_device, size_t data_length, uint32_t *result) {
 #ifdef CONFIG_SX127X_DISABLE_SPI_CACHE
   return sx127x_spi_read_registers(reg, spi_device->spi_device, data_length, result);
@@ -132,10 +145,11 @@ int sx127x_shadow_spi_read_registers(int reg, shadow_spi_device_t *spi_device, s
   }
 
   // the result holds the registers most significant byte first, independent of the host byte order
+  uint8_t bytes[sizeof(uint32_t)];
   for (size_t i = 0; i < data_length; i++) {
-    spi_device->shadow_registers[reg + i] = (uint8_t) (*result >> (8 * (data_length - 1 - i)));
+    bytes[i] = (uint8_t) (*result >> (8 * (data_length - 1 - i)));
   }
-  memset(spi_device->shadow_registers_sync + reg, SHADOW_CACHED, data_length);
+  sx127x_shadow_store(reg, bytes, data_length, spi_device);
   return code;
 #endif
 }
@@ -159,11 +173,7 @@ int sx127x_shadow_spi_write_register(int reg, const uint8_t *data, size_t data_l
       }
     }
   }
-  if (spi_device->shadow_registers_sync[reg] == SHADOW_IGNORE) {
-    return code;
-  }
-  memcpy(spi_device->shadow_registers + reg, data, data_length);
-  memset(spi_device->shadow_registers_sync + reg, SHADOW_CACHED, data_length);
+  sx127x_shadow_store(reg, data, data_length, spi_device);
 #endif
   return code;
 }
@@ -171,11 +181,11 @@ int sx127x_shadow_spi_write_register(int reg, const uint8_t *data, size_t data_l
 int sx127x_shadow_spi_write_buffer(int reg, const uint8_t *buffer, size_t buffer_length, shadow_spi_device_t *spi_device) {
   int code = sx127x_spi_write_buffer(reg, buffer, buffer_length, spi_device->spi_device);
 #ifndef CONFIG_SX127X_DISABLE_SPI_CACHE
-  if (code != SX127X_OK || spi_device->shadow_registers_sync[reg] == SHADOW_IGNORE) {
+  // a burst to the FIFO does not advance the register address
+  if (code != SX127X_OK || reg == REGFIFO) {
     return code;
   }
-  memcpy(spi_device->shadow_registers + reg, buffer, buffer_length);
-  memset(spi_device->shadow_registers_sync + reg, SHADOW_CACHED, buffer_length);
+  sx127x_shadow_store(reg, buffer, buffer_length, spi_device);
 #endif
   return code;
 }
